@@ -344,7 +344,7 @@ fn main() {
     install_panic_hook();
     let (cmd, a) = Args::parse();
     // thread workloads burn CPU on several threads at once; everything else is single-threaded
-    start_hang_detector(a.u("hang_cpu_s", if cmd == "threads" { 120 } else { 20 }), a.json());
+    start_hang_detector(a.u("hang_cpu_s", if cmd == "threads" { 30 } else { 20 }), a.json());
     let ev = match cmd.as_str() {
         "hist" => cmd_hist(&a),
         "pool" => cmd_pool(&a),
